@@ -55,13 +55,19 @@ def run(ctx):
                 if s["k"] == "assign" and s["rv"]["k"] == "agg" and s["rv"].get("adt") == "error::ErrorImpl":
                     n += 1
                     vn = s["rv"].get("vname")
-                    okw = (vn == "Message" and fn.path.endswith("::custom")) or \
-                          (vn == "Io" and "From<std::io::Error>" in fn.path) or (vn == "Parse" and "From<lexpr::parse::Error>" in fn.path)
+                    # Message: any constructor of the error module; Io / Parse: only from a function that is handed
+                    # the io / parse error it wraps (the From conversions or helpers of them)
+                    argtys = [fn.local_ty(i) for i in range(1, fn.arg_count + 1)]
+                    in_mod = fn.file.endswith("serde-lexpr/src/error.rs")
+                    okw = (vn == "Message" and in_mod) or \
+                          (vn == "Io" and in_mod and any("std::io::Error" in a for a in argtys)) or \
+                          (vn == "Parse" and in_mod and any("parse::Error" in a or "parse::error::Error" in a for a in argtys))
                     if okw:
                         r4.ok("%s builds ErrorImpl::%s" % (fn.path, vn), fn, s.get("line"))
                     else:
                         r4.violation("serde_lexpr::" + fn.path, "errorimpl:%s" % vn,
-                                     "%s builds ErrorImpl::%s outside the three reviewed constructors" % (fn.path, vn), fn.loc(s.get("line")))
+                                     "%s builds ErrorImpl::%s outside the error module's constructors (Message anywhere in it; Io / Parse only "
+                                     "where the wrapped error is an argument)" % (fn.path, vn), fn.loc(s.get("line")))
     r4.floor("errorimpl-sites", n)
     for fn in serde.fns:
         if not common.in_file(fn, "serde-lexpr/src/value/de.rs"):
